@@ -15,9 +15,11 @@ import (
 	"net"
 	"net/http"
 	"strings"
+	"sync/atomic"
 	"time"
 
 	v1 "github.com/fatedier/frp/pkg/config/v1"
+	"github.com/fatedier/frp/pkg/msg"
 	"verifharness/hx"
 )
 
@@ -84,12 +86,40 @@ func waitProxy(c *hx.Client, name string, d time.Duration) (running bool, errTex
 	return false, "timeout"
 }
 
+// a NewProxy server plugin that approves everything; proxies whose name contains "slow" are approved
+// only after slowPlugin milliseconds (the window in which their session is dropped)
+var slowPlugin int64 = 500
+
+func startPlugin() (net.Listener, error) {
+	l, err := net.Listen("tcp", sysAddr+":0")
+	if err != nil {
+		return nil, err
+	}
+	go func() {
+		_ = http.Serve(l, http.HandlerFunc(func(w http.ResponseWriter, r *http.Request) {
+			b, _ := io.ReadAll(r.Body)
+			if strings.Contains(string(b), "slow") {
+				time.Sleep(time.Duration(atomic.LoadInt64(&slowPlugin)) * time.Millisecond)
+			}
+			w.Header().Set("Content-Type", "application/json")
+			_, _ = io.WriteString(w, `{"reject":false,"unchange":true}`)
+		}))
+	}()
+	return l, nil
+}
+
 func sysGroups(cfg *hx.RunCfg) error {
 	hx.Quiet()
 	vhostPort, muxPort := hx.FreePort(sysAddr), hx.FreePort(sysAddr)
+	pl, err := startPlugin()
+	if err != nil {
+		return err
+	}
+	defer pl.Close()
 	s, err := hx.StartServer(sysAddr, func(c *v1.ServerConfig) {
 		c.VhostHTTPPort = vhostPort
 		c.TCPMuxHTTPConnectPort = muxPort
+		c.HTTPPlugins = []v1.HTTPPluginOptions{{Name: "c13", Addr: "http://" + pl.Addr().String(), Path: "/h", Ops: []string{"NewProxy"}}}
 	})
 	if err != nil {
 		return err
@@ -138,7 +168,7 @@ func sysScenario(s *hx.Server, kind, rep, vhostPort, muxPort int, dist map[strin
 	case 0:
 		par = []int{1}
 	case 1:
-		par = []int{gnum, 0, 0}
+		par = []int{gnum, 0, 0, 0, 0}
 	default:
 		par = []int{gnum, 0, 0, 0}
 	}
@@ -315,6 +345,57 @@ func sysScenario(s *hx.Server, kind, rep, vhostPort, muxPort int, dist map[strin
 		if _, _, err := join(4, 1, hx.FreePort(sysAddr)); err != nil { // other port
 			return "", nil, err
 		}
+	}
+	if kind == 2 {
+		// a tcpmux proxy of the group with TWO domains: the first joins, the second is "another route" and
+		// is refused, so the proxy as a whole is refused and its first listener must be taken back
+		e, err := hx.StartEcho(sysAddr, "M6;")
+		if err != nil {
+			return "", nil, err
+		}
+		name := fmt.Sprintf("sys-%s-%d-m6", kn, rep)
+		base := v1.ProxyBaseConfig{Name: name, Type: "tcpmux", LoadBalancer: v1.LoadBalancerConfig{Group: group, GroupKey: kname(1)},
+			ProxyBackend: v1.ProxyBackend{LocalIP: sysAddr, LocalPort: e.Port()}}
+		pc := &v1.TCPMuxProxyConfig{ProxyBaseConfig: base, DomainConfig: v1.DomainConfig{CustomDomains: []string{domain, "other-" + domain}}, Multiplexer: "httpconnect"}
+		c, err := s.StartClient([]v1.ProxyConfigurer{pc}, nil, nil)
+		if err != nil {
+			return "", nil, err
+		}
+		ok, etxt := waitProxy(c, name, 5*time.Second)
+		c.Close()
+		if ok || etxt == "timeout" {
+			return "", nil, fmt.Errorf("two-domain tcpmux group proxy: running=%v %s", ok, etxt)
+		}
+		jt := len(reqs)
+		reqs = append(reqs, Req{Op: "join", M: 6, Group: gnum, Key: 1, Par: par, Mux: true, OS: true, Lis: true})
+		thr = append(thr, [2]int{sLeft, 0})
+		par2 := append([]int{}, par...)
+		par2[0] = gnum + 100
+		reqs = append(reqs, Req{Op: "join", M: 6, Group: gnum, Key: 1, Par: par2, Mux: true, OS: true, Lis: true})
+		thr = append(thr, [2]int{sRefused, errCode(etxt)})
+		reqs = append(reqs, Req{Op: "leave", JT: jt})
+		thr = append(thr, [2]int{sDone, 0})
+		dist["sys-two-domain-proxy-refused:"+kn]++
+		time.Sleep(100 * time.Millisecond)
+	}
+	if kind == 0 {
+		// a session that drops while its NewProxy is still being processed (slow plugin): the join is
+		// completed and then undone by the tear-down of that session
+		p, resp, err := s.Login(hx.LoginOpts{})
+		if err != nil || p == nil {
+			return "", nil, fmt.Errorf("scripted login: %v %v", err, resp)
+		}
+		_ = p.Send(&msg.NewProxy{ProxyName: fmt.Sprintf("sys-%s-%d-slow", kn, rep), ProxyType: "tcp", RemotePort: rport,
+			Group: group, GroupKey: kname(1)})
+		time.Sleep(100 * time.Millisecond)
+		p.Close()
+		time.Sleep(time.Duration(atomic.LoadInt64(&slowPlugin))*time.Millisecond + 500*time.Millisecond)
+		jt := len(reqs)
+		reqs = append(reqs, Req{Op: "join", M: 8, Group: gnum, Key: 1, Par: par, Port: rport, Mux: true, OS: true, Lis: true})
+		thr = append(thr, [2]int{sLeft, 0})
+		reqs = append(reqs, Req{Op: "leave", JT: jt})
+		thr = append(thr, [2]int{sDone, 0})
+		dist["sys-join-on-dropping-session:"+kn]++
 	}
 	for i := 0; i < 4; i++ {
 		conn()
